@@ -6,10 +6,816 @@ Every definition cites the Rust function it transcribes (file + fn) and keeps it
 wrapping arithmetic and its error returns; `Out.trap` / `none`-as-panic results mark what would be a panic of
 the overflow-checked profile, and Props/C01HandColr.lean shows they are never produced.  Tied to the real code
 by harness group `colr.model` (driver commands `hc.*`, Drv/C01HandColr.lean).
+
+* `Colr::{v0_base_glyph, v0_layer, v1_base_glyph, v1_layer, v1_clip_box}`      tables/colr.rs
+  over the byte-level view of the generated readers they call (`Colr::read`, the nullable
+  `base_glyph_records` / `layer_records` arrays, `BaseGlyphList` / `LayerList` / `ClipList`,
+  `Paint::read`, `ClipBox::read`); the binary searches are `Layout.binarySearchBy`
+  (core's `binary_search_by`, determined for every — also unsorted — record array) and the
+  `&records[ix]` indexing after `Ok(ix)` is a representable panic (`Res.trap`).
+* `Colr::{v0_closure_glyphs, v0_closure_palette_indices, v1_closure}`,
+  `Colrv1ClosureContext::{dispatch, paint_visited, add_*}`, every `Paint*::v1_closure`,
+  `ColorLine / VarColorLine::v1_closure`, `Clip / ClipBox::v1_closure`             tables/colr/closure.rs
+  over an abstract paint graph (`Graph`: what each paint offset resolves to) with the byte-level
+  instance `graphOf`.
+* `Svg::glyph_data` (tables/svg.rs), `Hdmx::record_for_size` (tables/hdmx.rs),
+  `Vorg::vertical_origin_y` (tables/vorg.rs), `Metadata::read_with_args` / `DataMapRecord::data`
+  (tables/meta.rs), `compute_checksum` (tables.rs), `ArrayOfOffsets::{get, iter}`,
+  `ArrayOfNullableOffsets::{get, iter}` (offset_array.rs).
+
+cpal.rs, stat.rs (three straight-line `match`es), gasp.rs, base.rs, os2.rs hold no hand-written loop or
+index computation (their arrays are generated getters, covered by the shape theorems).
+
+`usize` is 64 bit (`HandRead.MAXU`).  NOT modelled: the `PaintId` handed out by `v1_base_glyph` /
+`v1_layer` (`offset + offset_data.as_ptr() as usize`: an address, its sum with a `u32` cannot wrap for
+any user-space address).
 -/
 import FontVerif.Model.ReadIter
 import FontVerif.Model.HandRead
+import FontVerif.Model.Layout
 namespace FontVerif.HandColr
-open FontVerif FontVerif.ReadIter FontVerif.HandRead
+open FontVerif FontVerif.ReadIter FontVerif.HandRead FontVerif.Layout
+
+/-- `ReadError` values of the functions below -/
+inductive CErr where
+  | nullOffset
+  | oob
+  | invalidFormat (f : Nat)
+  | badIndex (i : Nat)
+  deriving DecidableEq, Repr
+
+/-- result of a fallible function: `Ok`, `Err(ReadError)`, or a panic of the strict profile -/
+inductive Res (α : Type) where
+  | ok (a : α)
+  | err (e : CErr)
+  | trap
+  deriving DecidableEq, Repr
+
+def U32MAX : Nat := 4294967295
+
+/-! ## generated readers the COLR helpers call (byte-level view) -/
+
+/-- big-endian scalar of `n` bytes at `p`; only used where the reader validated `p + n ≤ len` -/
+def be (d : List Nat) (p n : Nat) : Nat := beAt d p n
+
+/-- `Colr::read` (generated): `version`, the v0 header (14 bytes) and for `version ≥ 1`
+(`version.compatible(1u16)`) the five v1 offsets (34 bytes); the marker fields are read back by the
+getters. -/
+structure Colr where
+  d : List Nat
+  version : Nat
+  numBase : Nat
+  baseOff : Nat
+  layerOff : Nat
+  numLayer : Nat
+  /-- `base_glyph_list_offset`, `layer_list_offset`, `clip_list_offset` (`None` for version 0) -/
+  v1 : Option (Nat × Nat × Nat)
+  deriving Repr
+
+def colrRead (d : List Nat) : Option Colr :=
+  match readAt d 0 2 with
+  | none => none
+  | some version =>
+    let need := if version ≥ 1 then 34 else 14
+    if need ≤ d.length then
+      some { d := d, version := version, numBase := be d 2 2, baseOff := be d 4 4, layerOff := be d 8 4,
+             numLayer := be d 12 2,
+             v1 := if version ≥ 1 then some (be d 14 4, be d 18 4, be d 22 4) else none }
+    else none
+
+/-- `BaseGlyph` record -/
+structure BaseGlyph where
+  gid : Nat
+  first : Nat
+  num : Nat
+  deriving Repr, DecidableEq, Inhabited
+
+/-- `Layer` record -/
+structure Layer where
+  gid : Nat
+  pal : Nat
+  deriving Repr, DecidableEq, Inhabited
+
+/-- `BaseGlyphPaint` record (`paint_offset` relative to the list) -/
+structure BasePaint where
+  gid : Nat
+  off : Nat
+  deriving Repr, DecidableEq, Inhabited
+
+/-- `Clip` record (`clip_box_offset` relative to the list) -/
+structure Clip where
+  start : Nat
+  end_ : Nat
+  off : Nat
+  deriving Repr, DecidableEq, Inhabited
+
+/-- `Nullable<Offset32>::resolve_with_args::<&[T]>(data, &count)` (offset.rs + array.rs): `None` for a
+null offset, `OutOfBounds` when `split_off(off)` or `read_array(0..count * size)` fails, else the absolute
+position of the first record -/
+def resolveArray (len off count size : Nat) : Option (Except CErr Nat) :=
+  if off = 0 then none
+  else if off > len then some (.error .oob)
+  else if count * size ≤ len - off then some (.ok off) else some (.error .oob)
+
+/-- the `count` records of `size` bytes from `at_` -/
+def records {α : Type} (f : Nat → α) (at_ count size : Nat) : List α :=
+  (List.range count).map (fun i => f (at_ + i * size))
+
+/-- `Colr::base_glyph_records()` -/
+def Colr.baseGlyphRecords (t : Colr) : Option (Except CErr (List BaseGlyph)) :=
+  match resolveArray t.d.length t.baseOff t.numBase 6 with
+  | none => none
+  | some (.error e) => some (.error e)
+  | some (.ok a) => some (.ok (records (fun p => ⟨be t.d p 2, be t.d (p + 2) 2, be t.d (p + 4) 2⟩) a t.numBase 6))
+
+/-- `Colr::layer_records()` -/
+def Colr.layerRecords (t : Colr) : Option (Except CErr (List Layer)) :=
+  match resolveArray t.d.length t.layerOff t.numLayer 4 with
+  | none => none
+  | some (.error e) => some (.error e)
+  | some (.ok a) => some (.ok (records (fun p => ⟨be t.d p 2, be t.d (p + 2) 2⟩) a t.numLayer 4))
+
+/-- a resolved list table: absolute position (= its `offset_data()`) and its records -/
+structure ListT (α : Type) where
+  at_ : Nat
+  recs : List α
+  deriving Repr
+
+/-- `Nullable<Offset32>::resolve::<L>(data)` for the three v1 list tables: `hdr` header bytes whose last
+four are the `u32` count, then `count * size` record bytes (`L::read`: `cursor.read()?`, `checked_mul`
+— a `u32` times a record size cannot overflow a 64-bit `usize` —, `advance_by`, `finish`) -/
+def resolveList {α : Type} (d : List Nat) (off? : Option Nat) (hdr size : Nat) (f : Nat → α) :
+    Option (Except CErr (ListT α)) :=
+  match off? with
+  | none => none
+  | some off =>
+    if off = 0 then none
+    else if off > d.length then some (.error .oob)
+    else
+      match readAt d (off + hdr - 4) 4 with
+      | none => some (.error .oob)
+      | some count =>
+        if hdr + count * size ≤ d.length - off then
+          some (.ok ⟨off, records f (off + hdr) count size⟩)
+        else some (.error .oob)
+
+/-- `Colr::base_glyph_list()` -/
+def Colr.baseGlyphList (t : Colr) : Option (Except CErr (ListT BasePaint)) :=
+  resolveList t.d (t.v1.map (·.1)) 4 6 (fun p => ⟨be t.d p 2, be t.d (p + 2) 4⟩)
+
+/-- `Colr::layer_list()`; the records are the `paint_offsets` -/
+def Colr.layerList (t : Colr) : Option (Except CErr (ListT Nat)) :=
+  resolveList t.d (t.v1.map (·.2.1)) 4 4 (fun p => be t.d p 4)
+
+/-- `Colr::clip_list()` -/
+def Colr.clipList (t : Colr) : Option (Except CErr (ListT Clip)) :=
+  resolveList t.d (t.v1.map (·.2.2)) 5 7 (fun p => ⟨be t.d p 2, be t.d (p + 2) 2, be t.d (p + 4) 3⟩)
+
+/-- `MinByteRange` of the `Paint` formats (generated `Paint*::read`: fixed-size `advance`s + `finish`) -/
+def paintSize (fmt : Nat) : Option Nat :=
+  match fmt with
+  | 1 => some 6 | 2 => some 5 | 3 => some 9 | 4 => some 16 | 5 => some 20 | 6 => some 16 | 7 => some 20
+  | 8 => some 12 | 9 => some 16 | 10 => some 6 | 11 => some 3 | 12 => some 7 | 13 => some 7
+  | 14 => some 8 | 15 => some 12 | 16 => some 8 | 17 => some 12 | 18 => some 12 | 19 => some 16
+  | 20 => some 6 | 21 => some 10 | 22 => some 10 | 23 => some 14 | 24 => some 6 | 25 => some 10
+  | 26 => some 10 | 27 => some 14 | 28 => some 8 | 29 => some 12 | 30 => some 12 | 31 => some 16
+  | 32 => some 8
+  | _ => none
+
+/-- `Paint::read(data)` on the data starting at absolute position `p`: the format -/
+def paintRead (d : List Nat) (p : Nat) : Except CErr Nat :=
+  match readAt d p 1 with
+  | none => .error .oob
+  | some fmt =>
+    match paintSize fmt with
+    | none => .error (.invalidFormat fmt)
+    | some sz => if p + sz ≤ d.length then .ok fmt else .error .oob
+
+/-- `off.resolve::<Paint>(data)` with `data` starting at absolute position `base`: `NullOffset`,
+`OutOfBounds` (`split_off`), else `Paint::read`; `ok (format, absolute position)` -/
+def resolvePaint (d : List Nat) (base off : Nat) : Except CErr (Nat × Nat) :=
+  if off = 0 then .error .nullOffset
+  else if base + off > d.length then .error .oob
+  else match paintRead d (base + off) with
+    | .error e => .error e
+    | .ok fmt => .ok (fmt, base + off)
+
+/-- `Offset24::resolve::<ClipBox>(data)`: format 1 (9 bytes) / 2 (13 bytes); `ok (format, position)` -/
+def resolveClipBox (d : List Nat) (base off : Nat) : Except CErr (Nat × Nat) :=
+  if off = 0 then .error .nullOffset
+  else if base + off > d.length then .error .oob
+  else match readAt d (base + off) 1 with
+    | none => .error .oob
+    | some fmt =>
+      if fmt = 1 then (if base + off + 9 ≤ d.length then .ok (1, base + off) else .error .oob)
+      else if fmt = 2 then (if base + off + 13 ≤ d.length then .ok (2, base + off) else .error .oob)
+      else .error (.invalidFormat fmt)
+
+/-- `opt.ok_or(ReadError::NullOffset)??` -/
+def orNull {α β : Type} (x : Option (Except CErr α)) (k : α → Res β) : Res β :=
+  match x with
+  | none => .err .nullOffset
+  | some (.error e) => .err e
+  | some (.ok a) => k a
+
+/-! ## `Colr::v0_base_glyph`, `v0_layer`, `v1_base_glyph`, `v1_layer`, `v1_clip_box` (tables/colr.rs) -/
+
+/-- `usize` addition of the strict profile -/
+def addU (a b : Nat) : Option Nat := checkedAdd a b
+
+/-- the tail of `v0_base_glyph` (shared with the v0 closures): `binary_search_by(|rec| rec.glyph_id().cmp(&gid))`,
+`Ok(ix) => &records[ix]` (index panic representable), `start = first_layer_index as usize`,
+`end = start + num_layers as usize` (unchecked `usize` add). -/
+def v0Range (recs : List BaseGlyph) (gid : Nat) : Res (Option (Nat × Nat)) :=
+  match binarySearchBy recs.length (fun i => natCmp (recs.getD i default).gid gid) with
+  | .err _ => .ok none
+  | .ok ix =>
+    match recs[ix]? with
+    | none => .trap
+    | some r =>
+      match addU r.first r.num with
+      | none => .trap
+      | some e => .ok (some (r.first, e))
+
+/-- `Colr::v0_base_glyph(glyph_id)`; `glyph_id` is a `GlyphId` (u32): the records are fetched first, then
+`glyph_id.try_into::<GlyphId16>()` fails above `0xFFFF` → `Ok(None)`. -/
+def v0BaseGlyph (t : Colr) (gid : Nat) : Res (Option (Nat × Nat)) :=
+  orNull t.baseGlyphRecords fun recs =>
+    if gid > 65535 then .ok none else v0Range recs gid
+
+/-- `Colr::v0_layer(index)` given the result of `self.layer_records()`:
+`.ok_or(ReadError::NullOffset)??`, `layers.get(index).ok_or(OutOfBounds)` -/
+def v0LayerOf (lr : Option (Except CErr (List Layer))) (index : Nat) : Res Layer :=
+  orNull lr fun ls =>
+    match ls[index]? with
+    | none => .err .oob
+    | some l => .ok l
+
+/-- `Colr::v0_layer(index)` -/
+def v0Layer (t : Colr) (index : Nat) : Res Layer := v0LayerOf t.layerRecords index
+
+/-- binary search + `&records[ix]` of `v1_base_glyph` / `PaintColrGlyph::v1_closure` -/
+def v1Find (recs : List BasePaint) (gid : Nat) : Res (Option BasePaint) :=
+  match binarySearchBy recs.length (fun i => natCmp (recs.getD i default).gid gid) with
+  | .err _ => .ok none
+  | .ok ix =>
+    match recs[ix]? with
+    | none => .trap
+    | some r => .ok (some r)
+
+/-- `Colr::v1_base_glyph(glyph_id)`: the `GlyphId16` conversion comes first; `ok (some (format, position))`
+is the resolved paint -/
+def v1BaseGlyph (t : Colr) (gid : Nat) : Res (Option (Nat × Nat)) :=
+  if gid > 65535 then .ok none else
+  orNull t.baseGlyphList fun l =>
+    match v1Find l.recs gid with
+    | .trap => .trap
+    | .err e => .err e
+    | .ok none => .ok none
+    | .ok (some r) =>
+      match resolvePaint t.d l.at_ r.off with
+      | .error e => .err e
+      | .ok p => .ok (some p)
+
+/-- `Colr::v1_layer(index)` -/
+def v1Layer (t : Colr) (index : Nat) : Res (Nat × Nat) :=
+  orNull t.layerList fun l =>
+    match l.recs[index]? with
+    | none => .err .oob
+    | some off =>
+      match resolvePaint t.d l.at_ off with
+      | .error e => .err e
+      | .ok p => .ok p
+
+/-- comparison closure of `v1_clip_box` -/
+def clipCmp (c : Clip) (gid : Nat) : Ordering :=
+  if gid < c.start then .gt else if gid > c.end_ then .lt else .eq
+
+/-- `Colr::v1_clip_box(glyph_id)`; `ok (some (format, position))` is the resolved `ClipBox` -/
+def v1ClipBox (t : Colr) (gid : Nat) : Res (Option (Nat × Nat)) :=
+  if gid > 65535 then .ok none else
+  orNull t.clipList fun l =>
+    match binarySearchBy l.recs.length (fun i => clipCmp (l.recs.getD i default) gid) with
+    | .err _ => .ok none
+    | .ok ix =>
+      match l.recs[ix]? with
+      | none => .trap
+      | some c =>
+        match resolveClipBox t.d l.at_ c.off with
+        | .error e => .err e
+        | .ok b => .ok (some b)
+
+/-! ## COLR v0 closures (tables/colr/closure.rs)
+
+`glyph_set.iter()` is rendered as the list of its members; the result sets are lists (insertion order,
+duplicates kept — the driver sorts and dedups, an `IntSet` has no order of insertion). -/
+
+/-- the loop `for layer_index in start..end { if let Ok((gid, pal)) = self.v0_layer(layer_index) { set.insert(..) } }`;
+`pick` selects the glyph id or the palette index -/
+def v0LayerLoop (t : Colr) (pick : Layer → Nat) (start end_ : Nat) (acc : List Nat) : List Nat :=
+  let lr := t.layerRecords   -- `self.v0_layer(i)` resolves the same array on every trip
+  (List.range' start (end_ - start)).foldl (fun acc i =>
+    match v0LayerOf lr i with
+    | .ok l => pick l :: acc
+    | _ => acc) acc
+
+/-- loop body of `v0_closure_glyphs` / `v0_closure_palette_indices` for one member of the glyph set;
+`none` = panic -/
+def v0ClosureStep (t : Colr) (recs : List BaseGlyph) (pick : Layer → Nat) (acc : List Nat) (gid : Nat) :
+    Option (List Nat) :=
+  if gid > 65535 then some acc else
+  match v0Range recs gid with
+  | .trap => none
+  | .err _ => some acc
+  | .ok none => some acc
+  | .ok (some (s, e)) => some (v0LayerLoop t pick s e acc)
+
+def v0ClosureLoop (t : Colr) (recs : List BaseGlyph) (pick : Layer → Nat) : List Nat → List Nat → Option (List Nat)
+  | [], acc => some acc
+  | g :: gs, acc =>
+    match v0ClosureStep t recs pick acc g with
+    | none => none
+    | some acc' => v0ClosureLoop t recs pick gs acc'
+
+/-- `Colr::v0_closure_glyphs(glyph_set, out)`: `out.union(glyph_set)`, then the layers' glyph ids -/
+def v0ClosureGlyphs (t : Colr) (glyphs : List Nat) : Option (List Nat) :=
+  match t.baseGlyphRecords with
+  | some (.ok recs) => v0ClosureLoop t recs (·.gid) glyphs glyphs
+  | _ => some glyphs
+
+/-- `Colr::v0_closure_palette_indices(glyph_set, out)` -/
+def v0ClosurePalettes (t : Colr) (glyphs : List Nat) : Option (List Nat) :=
+  match t.baseGlyphRecords with
+  | some (.ok recs) => v0ClosureLoop t recs (·.pal) glyphs []
+  | _ => some []
+
+/-! ## COLR v1 closure (tables/colr/closure.rs) over an abstract paint graph -/
+
+/-- what `Paint::v1_closure` reads of a paint.  A child is `some position` when `self.paint()` (…) is
+`Ok`, the position being the child's `offset_data()` relative to the COLR table. -/
+inductive PNode where
+  /-- `PaintColrLayers` -/
+  | layers (num first : Nat)
+  /-- `PaintSolid` / `PaintVarSolid` (`var_index_base`, 1 delta) -/
+  | solid (pal : Nat) (var : Option Nat)
+  /-- the six gradient formats: the stops of `color_line()` (`none` = `Err`; palette index and, for a
+  `VarColorStop`, its `var_index_base`), and `(var_index_base, num_vars)` of a Var gradient -/
+  | gradient (stops : Option (List (Nat × Option Nat))) (var : Option (Nat × Nat))
+  /-- `PaintGlyph` -/
+  | glyph (gid : Nat) (child : Option Nat)
+  /-- `PaintColrGlyph` -/
+  | colrGlyph (gid : Nat)
+  /-- `PaintTransform` … `PaintVarSkewAroundCenter`: the child and the `add_variation_indices(base, n)` that
+  follows `dispatch` inside `if let Ok(paint)` (for `PaintVarTransform`: present when `transform()` is `Ok`) -/
+  | unary (child : Option Nat) (var : Option (Nat × Nat))
+  /-- `PaintComposite` -/
+  | composite (src backdrop : Option Nat)
+  deriving Repr, DecidableEq, Inhabited
+
+/-- the part of a COLR table the v1 closure reads -/
+structure Graph where
+  /-- the paint whose data starts at a position (`none`: `Paint::read` fails there) -/
+  node : Nat → Option PNode
+  /-- `c.colr.layer_list()` is `Some(Ok(_))`: per layer, `paint_offset.resolve::<Paint>()` is `Ok` at … -/
+  layerList : Option (List (Option Nat))
+  /-- `c.colr.base_glyph_list()` is `Some(Ok(_))`: glyph id and `record.paint(..)` is `Ok` at … -/
+  baseList : Option (List (Nat × Option Nat))
+
+/-- `Colrv1ClosureContext` (+ ghost counters `calls`, `stops` and the failure flags) -/
+structure Ctx where
+  glyphs : List Nat := []
+  /-- `layer_indices.insert_range(a..=b)` calls -/
+  layers : List (Nat × Nat) := []
+  palettes : List Nat := []
+  /-- `variation_indices.insert_range(a..=b)` calls -/
+  vars : List (Nat × Nat) := []
+  /-- `nesting_level_left: u8` -/
+  level : Nat := 64
+  /-- `visited_paints` -/
+  visited : List Nat := []
+  /-- number of `dispatch` calls so far -/
+  calls : Nat := 0
+  /-- a `u8` / `u32` operation of the strict profile overflowed, or an index was out of bounds -/
+  trap : Bool := false
+  /-- the model ran out of fuel (artefact) -/
+  starved : Bool := false
+  deriving Repr
+
+/-- `add_variation_indices(var_index_base, num_vars)`: nothing for `num_vars == 0` or
+`NO_VARIATION_INDEX`; `last = base.saturating_add(num_vars as u32 - 1)` -/
+def Ctx.addVars (c : Ctx) (base n : Nat) : Ctx :=
+  if n = 0 ∨ base = U32MAX then c
+  else { c with vars := (base, min (base + (n - 1)) U32MAX) :: c.vars }
+
+def Ctx.addVarsOpt (c : Ctx) : Option (Nat × Nat) → Ctx
+  | none => c
+  | some (b, n) => c.addVars b n
+
+/-- `ColorStop::v1_closure` / `VarColorStop::v1_closure` (2 deltas) -/
+def Ctx.addStop (c : Ctx) (s : Nat × Option Nat) : Ctx :=
+  let c := { c with palettes := s.1 :: c.palettes }
+  match s.2 with
+  | none => c
+  | some b => c.addVars b 2
+
+/-- the layer indices `first..=last` of `PaintColrLayers::v1_closure` -/
+def layerIndices (first last : Nat) : List Nat := List.range' first (last + 1 - first)
+
+/-- consecutive `dispatch` calls (the `for layer_index in first..=last` loop of `PaintColrLayers`,
+restricted to the layers that resolve); `rec` is `dispatch` one nesting level down -/
+def dispatchAll (rec : Ctx → Nat → Ctx) : Ctx → List Nat → Ctx
+  | c, [] => c
+  | c, p :: ps => dispatchAll rec (rec c p) ps
+
+/-- `Paint::v1_closure` → the format's `v1_closure`; `rec` = `c.dispatch(&paint)` -/
+def body (G : Graph) (rec : Ctx → Nat → Ctx) (c : Ctx) : PNode → Ctx
+  | .layers num first =>
+    if num = 0 then c else
+    match G.layerList with
+    | none => c
+    | some ll =>
+      -- `first_layer_index.saturating_add(num_layers as u32 - 1)`, `num_layers ≠ 0`
+      let last := min (first + (num - 1)) U32MAX
+      let c := { c with layers := (first, last) :: c.layers }
+      dispatchAll rec c ((layerIndices first last).filterMap (fun i => (ll[i]?).join))
+  | .solid pal var =>
+    let c := { c with palettes := pal :: c.palettes }
+    match var with
+    | none => c
+    | some b => c.addVars b 1
+  | .gradient stops var =>
+    let c := match stops with
+      | none => c
+      | some ss => ss.foldl Ctx.addStop c
+    c.addVarsOpt var
+  | .glyph gid child =>
+    let c := { c with glyphs := gid :: c.glyphs }
+    match child with
+    | none => c
+    | some p => rec c p
+  | .colrGlyph gid =>
+    match G.baseList with
+    | none => c
+    | some recs =>
+      match binarySearchBy recs.length (fun i => natCmp (recs.getD i default).1 gid) with
+      | .err _ => c
+      | .ok ix =>
+        match recs[ix]? with
+        | none => { c with trap := true }   -- `&records[ix]`
+        | some (_, none) => c
+        | some (_, some p) => rec { c with glyphs := gid :: c.glyphs } p
+  | .unary child var =>
+    match child with
+    | none => c
+    | some p => (rec c p).addVarsOpt var
+  | .composite src backdrop =>
+    let c := match src with
+      | none => c
+      | some p => rec c p
+    match backdrop with
+    | none => c
+    | some p => rec c p
+
+/-- `Colrv1ClosureContext::dispatch(&paint)` for the paint at `pos`: nesting limit, `paint_visited`
+(key `(paint_ptr - colr_head) as u32`: the paint's data lies inside the table's, the difference is its
+position), `nesting_level_left -= 1`, `paint.v1_closure(self)`, `nesting_level_left += 1` (`u8`, strict). -/
+def dispatch (G : Graph) : Nat → Ctx → Nat → Ctx
+  | 0, c, _ => { c with starved := true }
+  | fuel + 1, c, pos =>
+    let c := { c with calls := c.calls + 1 }
+    match G.node pos with
+    | none => c   -- not reached: every caller holds a parsed `Paint`
+    | some n =>
+      if c.level = 0 then c
+      else if c.visited.contains (pos % 4294967296) then c
+      else
+        let c := { c with visited := pos % 4294967296 :: c.visited, level := c.level - 1 }
+        let c := body G (dispatch G fuel) c n
+        if c.level + 1 > 255 then { c with trap := true } else { c with level := c.level + 1 }
+
+/-- `Clip::v1_closure`: `clip_box(..)` must resolve (`box`: `some (some base)` = Format2 with its
+`var_index_base`, `some none` = Format1), the glyph range `start..=end` must meet `c.glyph_set`
+(an empty range for `start > end`) -/
+def clipClosure (c : Ctx) (start end_ : Nat) (box : Option (Option Nat)) : Ctx :=
+  match box with
+  | none => c
+  | some b =>
+    if c.glyphs.any (fun g => start ≤ g ∧ g ≤ end_) then
+      match b with
+      | none => c
+      | some base => c.addVars base 4
+    else c
+
+/-- `Colr::v1_closure(glyph_set, layer_indices, palette_indices, variation_indices)` for a table of
+`version ≥ 1`: the base-glyph loop (`glyph_set.contains(gid)`, `paint_record.paint(..)` `Ok`), the union
+into `glyph_set`, then the clip loop with `c.glyph_set ∪ glyph_set`.  `clips`: `none` = `clip_list()` is
+not `Some(Ok(_))`.  Result: the context (its `glyphs` = `c.glyph_set` before the clip phase merged with
+the input set) and the final `glyph_set`. -/
+def v1Closure (G : Graph) (clips : Option (List (Nat × Nat × Option (Option Nat)))) (glyphSet : List Nat) :
+    Ctx × List Nat :=
+  let c0 : Ctx := {}
+  let (c, gs) := match G.baseList with
+    | none => (c0, glyphSet)
+    | some recs =>
+      let roots := recs.filterMap (fun (r : Nat × Option Nat) => if glyphSet.contains r.1 then r.2 else none)
+      let c := dispatchAll (dispatch G 65) c0 roots
+      (c, glyphSet ++ c.glyphs)
+  match clips with
+  | none => (c, gs)
+  | some cl =>
+    let c := { c with glyphs := c.glyphs ++ gs }
+    (cl.foldl (fun c (r : Nat × Nat × Option (Option Nat)) => clipClosure c r.1 r.2.1 r.2.2) c, gs)
+
+/-! ### the paint graph of a COLR table (byte-level view of the generated `Paint*` getters) -/
+
+/-- `Offset24` at `at_` resolved against the paint's own data (`self.paint()`, `source_paint()`, …) -/
+def childAt (d : List Nat) (p at_ : Nat) : Option Nat :=
+  match resolvePaint d p (be d at_ 3) with
+  | .ok (_, q) => some q
+  | .error _ => none
+
+/-- `self.color_line()` of a gradient at `p` + `color_stops()`: `ColorLine::read` / `VarColorLine::read`
+(`extend`, `num_stops`, `num_stops` stops of 6 / 10 bytes) -/
+def colorLine (d : List Nat) (p : Nat) (var : Bool) : Option (List (Nat × Option Nat)) :=
+  let off := be d (p + 1) 3
+  if off = 0 then none
+  else if p + off > d.length then none
+  else
+    let q := p + off
+    match readAt d (q + 1) 2 with
+    | none => none
+    | some n =>
+      let sz := if var then 10 else 6
+      if 3 + n * sz ≤ d.length - q then
+        some (records (fun r => (be d (r + 2) 2, if var then some (be d (r + 6) 4) else none)) (q + 3) n sz)
+      else none
+
+/-- `PaintVarTransform::transform()` (`VarAffine2x3`, 28 bytes) → `add_variation_indices(base, 6)` -/
+def affineVar (d : List Nat) (p : Nat) : Option (Nat × Nat) :=
+  let off := be d (p + 4) 3
+  if off = 0 then none
+  else if p + off + 28 ≤ d.length then some (be d (p + off + 24) 4, 6) else none
+
+/-- number of deltas of the Var transform formats (`add_variation_indices(self.var_index_base(), n)`) -/
+def unaryVars (fmt : Nat) : Nat :=
+  match fmt with
+  | 15 => 2 | 17 => 2 | 19 => 4 | 21 => 1 | 23 => 3 | 25 => 1 | 27 => 3 | 29 => 2 | 31 => 4
+  | _ => 0
+
+/-- the paint at position `p` as `v1_closure` sees it -/
+def nodeAt (d : List Nat) (p : Nat) : Option PNode :=
+  match paintRead d p with
+  | .error _ => none
+  | .ok fmt =>
+    match paintSize fmt with
+    | none => none
+    | some sz =>
+      some (
+        if fmt = 1 then .layers (be d (p + 1) 1) (be d (p + 2) 4)
+        else if fmt = 2 then .solid (be d (p + 1) 2) none
+        else if fmt = 3 then .solid (be d (p + 1) 2) (some (be d (p + 5) 4))
+        else if fmt = 4 ∨ fmt = 6 ∨ fmt = 8 then .gradient (colorLine d p false) none
+        else if fmt = 5 ∨ fmt = 7 then .gradient (colorLine d p true) (some (be d (p + 16) 4, 6))
+        else if fmt = 9 then .gradient (colorLine d p true) (some (be d (p + 12) 4, 4))
+        else if fmt = 10 then .glyph (be d (p + 4) 2) (childAt d p (p + 1))
+        else if fmt = 11 then .colrGlyph (be d (p + 1) 2)
+        else if fmt = 13 then .unary (childAt d p (p + 1)) (affineVar d p)
+        else if fmt = 32 then .composite (childAt d p (p + 1)) (childAt d p (p + 5))
+        else if fmt % 2 = 1 then .unary (childAt d p (p + 1)) (some (be d (p + sz - 4) 4, unaryVars fmt))
+        else .unary (childAt d p (p + 1)) none)
+
+def okPos : Except CErr (Nat × Nat) → Option Nat
+  | .ok (_, q) => some q
+  | .error _ => none
+
+/-- the graph of a parsed COLR table -/
+def graphOf (t : Colr) : Graph where
+  node := nodeAt t.d
+  layerList := match t.layerList with
+    | some (.ok l) => some (l.recs.map (fun off => okPos (resolvePaint t.d l.at_ off)))
+    | _ => none
+  baseList := match t.baseGlyphList with
+    | some (.ok l) => some (l.recs.map (fun r => (r.gid, okPos (resolvePaint t.d l.at_ r.off))))
+    | _ => none
+
+/-- the clip records as `Clip::v1_closure` sees them -/
+def clipsOf (t : Colr) : Option (List (Nat × Nat × Option (Option Nat))) :=
+  match t.clipList with
+  | some (.ok l) => some (l.recs.map (fun c =>
+      (c.start, c.end_, match resolveClipBox t.d l.at_ c.off with
+        | .ok (fmt, q) => some (if fmt = 2 then some (be t.d (q + 9) 4) else none)
+        | .error _ => none)))
+  | _ => none
+
+/-- `Colr::v1_closure` on a parsed table: `if self.version() < 1 { return }` -/
+def v1ClosureOf (t : Colr) (glyphSet : List Nat) : Ctx × List Nat :=
+  if t.version < 1 then ({}, glyphSet) else v1Closure (graphOf t) (clipsOf t) glyphSet
+
+/-! ## `Svg::glyph_data` (tables/svg.rs) -/
+
+/-- `SVGDocumentRecord` -/
+structure SvgRec where
+  start : Nat
+  end_ : Nat
+  off : Nat
+  len : Nat
+  deriving Repr, DecidableEq, Inhabited
+
+/-- comparison closure of `glyph_data` (`glyph_id` is a `GlyphId`, u32) -/
+def svgCmp (r : SvgRec) (gid : Nat) : Ordering :=
+  if r.start > gid then .gt else if r.end_ < gid then .lt else .eq
+
+/-- the search and slice of `Svg::glyph_data` on the records of a document list whose data
+(`document_list.data`, from the list's start to the end of the table) is `dataLen` bytes long:
+`binary_search_by(..).ok()`, `.get(index)`, `start.checked_add(len)?`, `all_data.get(start..end)`;
+`some (start, end)` = the document -/
+def svgDoc (recs : List SvgRec) (dataLen gid : Nat) : Option (Nat × Nat) :=
+  match binarySearchBy recs.length (fun i => svgCmp (recs.getD i default) gid) with
+  | .err _ => none
+  | .ok ix =>
+    match recs[ix]? with
+    | none => none
+    | some r =>
+      match checkedAdd r.off r.len with
+      | none => none
+      | some e => if r.off ≤ e ∧ e ≤ dataLen then some (r.off, e) else none
+
+/-- `Svg::read` (8 bytes) + `svg_document_list()` (non-nullable `Offset32`, `SVGDocumentList::read`):
+the records and the length of the list's data -/
+def svgList (d : List Nat) : Option (Except CErr (List SvgRec × Nat)) :=
+  if 8 ≤ d.length then
+    let off := be d 2 4
+    if off = 0 then some (.error .nullOffset)
+    else if off > d.length then some (.error .oob)
+    else match readAt d off 2 with
+      | none => some (.error .oob)
+      | some n =>
+        if 2 + n * 12 ≤ d.length - off then
+          some (.ok (records (fun p => ⟨be d p 2, be d (p + 2) 2, be d (p + 4) 4, be d (p + 8) 4⟩) (off + 2) n 12,
+                     d.length - off))
+        else some (.error .oob)
+  else none
+
+/-- `Svg::glyph_data(glyph_id)` on table bytes (`none`: `Svg::read` fails) -/
+def svgGlyphData (d : List Nat) (gid : Nat) : Option (Res (Option (Nat × Nat))) :=
+  match svgList d with
+  | none => none
+  | some (.error e) => some (.err e)
+  | some (.ok (recs, dl)) => some (.ok (svgDoc recs dl gid))
+
+/-! ## `Hdmx::record_for_size` (tables/hdmx.rs) -/
+
+/-- a `ComputedArray<DeviceRecord>` over `area` (the `num_records * size_device_record` record bytes):
+`item_len = size_device_record`, `len = area.len / item_len` (0 for a zero size) -/
+structure HdmxArr where
+  area : List Nat
+  itemLen : Nat
+  numGlyphs : Nat
+  deriving Repr
+
+def HdmxArr.len (a : HdmxArr) : Nat := compLen a.area.length a.itemLen
+
+/-- `ComputedArray::get(idx)` for `DeviceRecord`: `idx.checked_mul(item_len)`, `split_off`,
+`DeviceRecord::read_with_args` (pixel size, max width, `num_glyphs` widths from whatever follows —
+NOT limited to the record's `item_len` bytes); `some (start, pixel_size)` -/
+def HdmxArr.get (a : HdmxArr) (idx : Nat) : Option (Nat × Nat) :=
+  match checkedMul idx a.itemLen with
+  | none => none
+  | some start =>
+    if start ≤ a.area.length ∧ 2 + a.numGlyphs ≤ a.area.length - start then some (start, a.area.getD start 0)
+    else none
+
+/-- result of one trip of the `while lo < hi` loop -/
+inductive HStep where
+  | found (start : Nat)
+  | fail            -- `records.get(mid).ok()?` returned `None`
+  | go (lo hi : Nat)
+  | trap            -- `lo + hi` / `mid + 1` overflow
+  deriving Repr, DecidableEq
+
+def hdmxStep (a : HdmxArr) (size lo hi : Nat) : HStep :=
+  match addU lo hi with
+  | none => .trap
+  | some s =>
+    let mid := s / 2
+    match a.get mid with
+    | none => .fail
+    | some (start, px) =>
+      if px < size then (match addU mid 1 with | none => .trap | some l => .go l hi)
+      else if px > size then .go lo mid
+      else .found start
+
+/-- `Hdmx::record_for_size(size)`: `ok (some start)` = `Some(record)`; `none` = out of fuel; the second
+component counts the trips -/
+def hdmxLoop (a : HdmxArr) (size : Nat) : Nat → Nat → Nat → Nat → Option (Res (Option Nat) × Nat)
+  | 0, _, _, _ => none
+  | fuel + 1, lo, hi, trips =>
+    if lo < hi then
+      match hdmxStep a size lo hi with
+      | .found s => some (.ok (some s), trips + 1)
+      | .fail => some (.ok none, trips + 1)
+      | .trap => some (.trap, trips + 1)
+      | .go lo' hi' => hdmxLoop a size fuel lo' hi' (trips + 1)
+    else some (.ok none, trips)
+
+def hdmxRecordForSize (a : HdmxArr) (size : Nat) : Option (Res (Option Nat) × Nat) :=
+  hdmxLoop a size (a.len + 1) 0 a.len 0
+
+/-- `Hdmx::read(data, num_glyphs)` (generated): version, `num_records`, `size_device_record`,
+`num_records * size` record bytes -/
+def hdmxRead (d : List Nat) (numGlyphs : Nat) : Option HdmxArr :=
+  match readAt d 2 2, readAt d 4 4 with
+  | some n, some size =>
+    if 8 + n * size ≤ d.length then some ⟨(d.drop 8).take (n * size), size, numGlyphs⟩ else none
+  | _, _ => none
+
+/-! ## `Vorg::vertical_origin_y` (tables/vorg.rs) -/
+
+/-- `binary_search_by(|rec| rec.glyph_index().to_u32().cmp(&gid))`, `Ok(ix) => metrics.get(ix).map(..)
+.unwrap_or_default()`, else the default; values are the raw `u16` bit patterns of the `i16`s -/
+def vorgY (recs : List (Nat × Nat)) (dflt gid : Nat) : Nat :=
+  match binarySearchBy recs.length (fun i => natCmp (recs.getD i default).1 gid) with
+  | .err _ => dflt
+  | .ok ix =>
+    match recs[ix]? with
+    | none => 0
+    | some r => r.2
+
+/-- `Vorg::read`: version (4), default (2), count (2), `count` records of 4 bytes -/
+def vorgRead (d : List Nat) : Option (List (Nat × Nat) × Nat) :=
+  match readAt d 6 2 with
+  | none => none
+  | some n =>
+    if 8 + n * 4 ≤ d.length then
+      some (records (fun p => (be d p 2, be d (p + 2) 2)) 8 n 4, be d 4 2)
+    else none
+
+/-! ## `DataMapRecord::data` → `Metadata::read_with_args` (tables/meta.rs) -/
+
+/-- `data_offset().resolve_with_args::<Metadata>(data, &(tag, len))`: `NullOffset`, `split_off`,
+`data.slice(0..len as usize)`; `ok (start, end, is_lang_tags)` -/
+def metaData (dataLen off len : Nat) (lang : Bool) : Except CErr (Nat × Nat × Bool) :=
+  if off = 0 then .error .nullOffset
+  else if off > dataLen then .error .oob
+  else if len ≤ dataLen - off then .ok (off, off + len, lang) else .error .oob
+
+/-- `Meta::read`: 12 header bytes, `data_maps_count`, the 12-byte records `(tag, offset, length)` -/
+def metaRead (d : List Nat) : Option (List (Nat × Nat × Nat)) :=
+  match readAt d 12 4 with
+  | none => none
+  | some n =>
+    if 16 + n * 12 ≤ d.length then
+      some (records (fun p => (be d p 4, be d (p + 4) 4, be d (p + 8) 4)) 16 n 12)
+    else none
+
+/-- `DLNG` / `SLNG` -/
+def isLangTag (tag : Nat) : Bool := tag = 0x646C6E67 || tag = 0x736C6E67
+
+/-! ## `compute_checksum` (tables.rs) -/
+
+/-- the `for quad in &mut iter` loop over `chunks_exact(4)` (`sum.wrapping_add(u32::from_be_bytes(quad))`)
+and `iter.remainder()`; the third component counts the trips -/
+def checksumLoop : List Nat → Nat → Nat → Nat × List Nat × Nat
+  | a :: b :: c :: e :: rest, sum, trips =>
+    checksumLoop rest ((sum + (((a * 256 + b) * 256 + c) * 256 + e)) % 4294967296) (trips + 1)
+  | rem, sum, trips => (sum, rem, trips)
+
+/-- `compute_checksum(table)`: the remainder (1–3 bytes) is padded with zeros on the right -/
+def computeChecksum (d : List Nat) : Nat × Nat :=
+  let r := checksumLoop d 0 0
+  let rem := match r.2.1 with
+    | [a] => a * 16777216
+    | [a, b] => a * 16777216 + b * 65536
+    | [a, b, c] => a * 16777216 + b * 65536 + c * 256
+    | _ => 0
+  ((r.1 + rem) % 4294967296, r.2.2)
+
+/-! ## `ArrayOfOffsets` / `ArrayOfNullableOffsets` (offset_array.rs) -/
+
+/-- `ArrayOfOffsets::get(idx)`: `offsets.get(idx).ok_or(InvalidCollectionIndex(idx as u32))`, then
+`resolve_with_args` (`read pos` = `T::read_with_args` on the data from `pos`) -/
+def arrGet {α : Type} (offs : List Nat) (dataLen : Nat) (read : Nat → Except CErr α) (idx : Nat) : Except CErr α :=
+  match offs[idx]? with
+  | none => .error (.badIndex (idx % 4294967296))
+  | some off =>
+    if off = 0 then .error .nullOffset
+    else if off > dataLen then .error .oob
+    else read off
+
+/-- `ArrayOfOffsets::iter()`: one resolved item per offset (`from_fn` over `offsets.iter()`) -/
+def arrIter {α : Type} (offs : List Nat) (dataLen : Nat) (read : Nat → Except CErr α) : List (Except CErr α) :=
+  (List.range offs.length).map (arrGet offs dataLen read)
+
+/-- `ArrayOfNullableOffsets::get(idx)`: `Some(Err(InvalidCollectionIndex))` past the end, `None` for a
+null offset -/
+def arrGetNullable {α : Type} (offs : List Nat) (dataLen : Nat) (read : Nat → Except CErr α) (idx : Nat) :
+    Option (Except CErr α) :=
+  match arrGet offs dataLen read idx with
+  | .error .nullOffset => none
+  | r => some r
+
+def arrIterNullable {α : Type} (offs : List Nat) (dataLen : Nat) (read : Nat → Except CErr α) :
+    List (Option (Except CErr α)) :=
+  (List.range offs.length).map (arrGetNullable offs dataLen read)
 
 end FontVerif.HandColr
